@@ -175,7 +175,20 @@ def _list(s):
     return [] if s == "." else [unhx(x) for x in s.split(",")]
 
 
+SLOW_EXIT = 2.6     # seconds the (sub)shell takes to terminate after a `T` step
+
+
 def run_op(tok, cx):
+    if tok == "T":
+        # not an observation: make the CURRENT shell slow to terminate (an EXIT trap that sleeps, like a shell started
+        # through a wrapper that cleans up) — leaving a subshell block then has to wait for the outer prompt however
+        # long that takes
+        if not cx.broken:
+            try:
+                cx.m.exec0("trap", f"sleep {SLOW_EXIT}", "EXIT")
+            except Exception:
+                cx.broken = True
+        return
     f = tok.split(":")
     kind = {"s": "set", "g": "get", "p": "probe", "c": "cd", "w": "pwd", "o": "setopt", "O": "getopt", "e": "echo",
             "x": "run"}[f[0]]
